@@ -4,13 +4,19 @@ From Unimock Require Export Model.Base Model.Chain.
 Open Scope N_scope.
 Open Scope string_scope.
 
-Inductive cop := CRef (ty v : N) | CMut (ty v : N) | CLive.
+(* CHelp: lend through the delegation helper of the instance (a `&self` provided method whose default body calls a
+   required method answered with make_ref: the value lives in the HELPER's chain, which belongs to the instance and is
+   released with it).  CTouch: a `&mut self` provided method (AsMut<DefaultImplDelegator>): needs exclusive access,
+   so the harness gives up its references, but nothing is released. *)
+Inductive cop := CRef (ty v : N) | CMut (ty v : N) | CLive | CHelp (ty v : N) | CTouch.
 
 Definition show_lval (x : lval) : string := dec (fst x) ++ ":" ++ dec (snd x).
 Definition show_held (l : list lval) : string := "[" ++ join "," (map show_lval l) ++ "]".
 
-(* one instance: its chain and the index from which the harness still holds references *)
-Record cinst := { ci_chain : vchain; ci_from : nat }.
+(* one instance: its own chain, the chain of its delegation helper, and the values the harness still holds
+   references to (in the order it obtained them) *)
+Record cinst := { ci_chain : vchain; ci_helper : vchain; ci_held : list lval }.
+Definition ci_size (ci : cinst) : N := N.of_nat (length (cells (ci_chain ci)) + length (cells (ci_helper ci))).
 
 Definition line (held : list lval) (live : N) : string := show_held held ++ " live=" ++ dec live.
 
@@ -22,16 +28,23 @@ Fixpoint session (others : N) (ci : cinst) (ops : list cop) : cinst * list strin
     let '(ci', out) :=
       match o with
       | CRef ty v =>
-        let c := fst (push (ci_chain ci) (ty, v)) in
-        ({| ci_chain := c; ci_from := ci_from ci |},
-         line (skipn (ci_from ci) (cells c)) (others + N.of_nat (length (cells c))))
+        let ci1 := {| ci_chain := fst (push (ci_chain ci) (ty, v)); ci_helper := ci_helper ci;
+                      ci_held := (ci_held ci ++ [(ty, v)])%list |} in
+        (ci1, line (ci_held ci1) (others + ci_size ci1))
+      | CHelp ty v =>
+        let ci1 := {| ci_chain := ci_chain ci; ci_helper := fst (push (ci_helper ci) (ty, v));
+                      ci_held := (ci_held ci ++ [(ty, v)])%list |} in
+        (ci1, line (ci_held ci1) (others + ci_size ci1))
       | CMut ty v =>
-        (* the value is changed through the &mut reference before it is read back *)
+        (* the value is changed through the &mut reference before it is read back; only the instance's OWN
+           chain is replaced *)
         let v' := if N.ltb ty 2 then (v + 1000)%N else 0%N in
-        let c := fst (push_mut (ci_chain ci) (ty, v')) in
-        ({| ci_chain := c; ci_from := 1 |}, line [(ty, v')] (others + 1))
-      | CLive =>
-        (ci, line (skipn (ci_from ci) (cells (ci_chain ci))) (others + N.of_nat (length (cells (ci_chain ci)))))
+        let ci1 := {| ci_chain := fst (push_mut (ci_chain ci) (ty, v')); ci_helper := ci_helper ci; ci_held := [] |} in
+        (ci1, line [(ty, v')] (others + ci_size ci1))
+      | CTouch =>
+        let ci1 := {| ci_chain := ci_chain ci; ci_helper := ci_helper ci; ci_held := [] |} in
+        (ci1, "[touch7] live=" ++ dec (others + ci_size ci1))
+      | CLive => (ci, line (ci_held ci) (others + ci_size ci))
       end in
     let '(ci'', outs) := session others ci' rest in
     (ci'', out :: outs)
@@ -41,15 +54,16 @@ Fixpoint sessions (others : N) (sizes : list N) (ss : list (list cop)) : list st
   match ss with
   | [] => ([], sizes)
   | ops :: rest =>
-    let '(ci, out) := session others {| ci_chain := empty_chain; ci_from := 0 |} ops in
-    let n := N.of_nat (length (cells (ci_chain ci))) in
+    let '(ci, out) := session others {| ci_chain := empty_chain; ci_helper := empty_chain; ci_held := [] |} ops in
+    let n := ci_size ci in
     let '(outs, sizes') := sessions (others + n) (sizes ++ [n]) rest in
     ((out ++ outs)%list, sizes')
   end.
 
 Fixpoint nsum (l : list N) : N := match l with [] => 0 | x :: t => x + nsum t end.
 
-(* instances are dropped last to first *)
+(* instances are dropped last to first -- by an ordinary drop or while their thread is unwinding from a panic
+   of the code under test: either way every value lent through the instance or its helper is released *)
 Fixpoint drops (sizes_rev : list N) (live : N) : list string :=
   match sizes_rev with
   | [] => []
